@@ -155,6 +155,14 @@ func c13Gen(r *rand.Rand, lane string) *c13Case {
 		if core.Chance(r, 1, 6) {
 			w("")
 		}
+		if core.Chance(r, 1, 8) {
+			// a line of blanks only in the middle of the file (the empty line of a block scalar, indentation an editor
+			// left behind): it is a line like any other and keeps its bytes
+			w("          data: |")
+			w("            first line of the payload")
+			w(core.Pick(r, "            ", "  ", "\t", "          \t", " "))
+			w("            line behind the blank one")
+		}
 		if core.Chance(r, 1, 25) {
 			w(core.Pick(r, "---", "--- # next document", "...")) // a stray document marker between tests: numbering goes on
 		}
